@@ -791,8 +791,16 @@ pub fn run_authz_model(cfg: &ScenCfg, out: &mut RunOut) {
                 }
             };
             got.lock().unwrap().1 = true;
-            for (tx, unit, pdu) in frames {
-                if stream.write_all(&mbap_frame(tx, unit, &pdu)).await.is_err() {
+            for (i, (tx, unit, pdu)) in frames.into_iter().enumerate() {
+                let f = mbap_frame(tx, unit, &pdu);
+                // every third frame travels in two TLS records, cut inside the header or the body
+                let ok = if i % 3 == 1 && f.len() > 8 {
+                    let cut = if i % 2 == 0 { 3 } else { 7 + (f.len() - 7) / 2 };
+                    stream.write_all(&f[..cut]).await.is_ok() && stream.flush().await.is_ok() && stream.write_all(&f[cut..]).await.is_ok()
+                } else {
+                    stream.write_all(&f).await.is_ok()
+                };
+                if !ok {
                     return;
                 }
                 let mut buf = [0u8; 300];
